@@ -352,8 +352,162 @@ def translate_source(text):
     return out
 
 
+# ------------------------------------------------------------------ the readers of _util.py  (coq/Model/ReadDSL.v)
+UTIL_READERS = ["read_short_bytes", "read_int_string", "relative_unpack"]
+UTIL_DECODED = {"read_short_ascii": "CAscii", "read_short_text": "CUtf8"}
+CODECS = {"ascii": "CAscii", "utf-8": "CUtf8"}
+
+
+class RFn:
+    def __init__(self, underflow_helpers, has_fmt):
+        self.slots = []
+        self.helpers = underflow_helpers        # names of module functions that just build a BufferUnderflowError
+        self.has_fmt = has_fmt
+
+    def slot(self, name, node, define=False):
+        if name in ("data", "cur", "fmt"):
+            refuse(node, "use of %s as a local" % name)
+        if name not in self.slots:
+            if not define:
+                refuse(node, "read of unknown name %s" % name)
+            self.slots.append(name)
+        return self.slots.index(name)
+
+    def iexpr(self, e):
+        if isinstance(e, ast.Name):
+            return "RCur" if e.id == "cur" else "RVar %d" % self.slot(e.id, e)
+        if isinstance(e, ast.Constant) and type(e.value) is int:
+            return "RConst %s" % zlit(e.value)
+        if isinstance(e, ast.UnaryOp) and isinstance(e.op, ast.USub) and isinstance(e.operand, ast.Constant) and type(e.operand.value) is int:
+            return "RConst %s" % zlit(-e.operand.value)
+        if isinstance(e, ast.BinOp) and isinstance(e.op, ast.Add):
+            return "RAdd (%s) (%s)" % (self.iexpr(e.left), self.iexpr(e.right))
+        if (isinstance(e, ast.Call) and isinstance(e.func, ast.Name) and e.func.id == "len" and len(e.args) == 1 and not e.keywords
+                and isinstance(e.args[0], ast.Name) and e.args[0].id == "data"):
+            return "RLen"
+        refuse(e, "integer expression")
+
+    def cond(self, t):
+        if isinstance(t, ast.Compare) and len(t.ops) == 1 and isinstance(t.ops[0], (ast.Lt, ast.Eq)):
+            return "%s (%s) (%s)" % ("RLt" if isinstance(t.ops[0], ast.Lt) else "REq", self.iexpr(t.left), self.iexpr(t.comparators[0]))
+        refuse(t, "condition")
+
+    def data_slice(self, e):
+        if (isinstance(e, ast.Subscript) and isinstance(e.value, ast.Name) and e.value.id == "data" and isinstance(e.slice, ast.Slice)
+                and e.slice.lower is not None and e.slice.upper is not None and e.slice.step is None):
+            return "(%s) (%s)" % (self.iexpr(e.slice.lower), self.iexpr(e.slice.upper))
+        refuse(e, "slice")
+
+    def rexc(self, node):
+        x = node.exc
+        if node.cause is not None or not isinstance(x, ast.Call) or not isinstance(x.func, ast.Name):
+            refuse(node, "raise")
+        if x.func.id in self.helpers:
+            return "Underflow"
+        if x.func.id in EXCS:
+            return EXCS[x.func.id]
+        refuse(node, "raise of %s" % x.func.id)
+
+    def stmt(self, node):
+        if isinstance(node, ast.Expr) and isinstance(node.value, ast.Constant) and isinstance(node.value.value, str):
+            return None
+        if isinstance(node, ast.If) and not node.orelse and len(node.body) == 1:
+            b = node.body[0]
+            if isinstance(b, ast.Raise):
+                return "RIfRaise (%s) %s" % (self.cond(node.test), self.rexc(b))
+            if (isinstance(b, ast.Return) and isinstance(b.value, ast.Tuple) and len(b.value.elts) == 2
+                    and isinstance(b.value.elts[0], ast.Constant) and b.value.elts[0].value is None):
+                return "RIfReturnNone (%s) (%s)" % (self.cond(node.test), self.iexpr(b.value.elts[1]))
+            refuse(node, "if body")
+        if isinstance(node, ast.AugAssign) and isinstance(node.op, ast.Add) and isinstance(node.target, ast.Name) and node.target.id == "cur":
+            return "RAdvance (%s)" % self.iexpr(node.value)
+        if isinstance(node, ast.Assign) and len(node.targets) == 1:
+            t, v = node.targets[0], node.value
+            if (isinstance(v, ast.Call) and isinstance(v.func, ast.Attribute) and isinstance(v.func.value, ast.Name) and v.func.value.id == "struct"
+                    and not v.keywords):
+                if v.func.attr == "unpack" and len(v.args) == 2:
+                    if isinstance(v.args[0], ast.Constant):      # (x,) = struct.unpack(">h", data[a:b])
+                        f = v.args[0].value
+                        if not (isinstance(f, str) and len(f) == 2 and f[0] == ">" and f[1] in FMT and isinstance(t, ast.Tuple) and len(t.elts) == 1
+                                and isinstance(t.elts[0], ast.Name)):
+                            refuse(node, "struct.unpack form")
+                        return "RUnpack1 %s %s %d" % (FMT[f[1]], self.data_slice(v.args[1]), self.slot(t.elts[0].id, t, True))
+                    if isinstance(v.args[0], ast.Name) and v.args[0].id == "fmt" and self.has_fmt and isinstance(t, ast.Name):
+                        return "RUnpackAll %s %d" % (self.data_slice(v.args[1]), self.slot(t.id, t, True))
+                if (v.func.attr == "calcsize" and len(v.args) == 1 and isinstance(v.args[0], ast.Name) and v.args[0].id == "fmt" and self.has_fmt
+                        and isinstance(t, ast.Name)):
+                    return "RCalcSize %d" % self.slot(t.id, t, True)
+                refuse(node, "struct call")
+            if isinstance(t, ast.Name) and isinstance(v, ast.Subscript):
+                return "RSlice %s %d" % (self.data_slice(v), self.slot(t.id, t, True))
+            refuse(node, "assignment")
+        if (isinstance(node, ast.Return) and isinstance(node.value, ast.Tuple) and len(node.value.elts) == 2
+                and isinstance(node.value.elts[0], ast.Name)):
+            return "RReturn %d (%s)" % (self.slot(node.value.elts[0].id, node), self.iexpr(node.value.elts[1]))
+        refuse(node, type(node).__name__)
+
+
+def translate_util(text):
+    tree = ast.parse(text)
+    fns = {n.name: n for n in tree.body if isinstance(n, ast.FunctionDef)}
+    helpers = set()
+    for n in fns.values():          # def helper(...): return BufferUnderflowError(...)
+        body = [b for b in n.body if not (isinstance(b, ast.Expr) and isinstance(b.value, ast.Constant))]
+        if (len(body) == 1 and isinstance(body[0], ast.Return) and isinstance(body[0].value, ast.Call)
+                and isinstance(body[0].value.func, ast.Name) and body[0].value.func.id == "BufferUnderflowError"):
+            helpers.add(n.name)
+    out = {}
+    for name in UTIL_READERS:
+        key = "util_" + name
+        try:
+            fn = fns.get(name)
+            if fn is None:
+                refuse(tree, "function %s not found" % name)
+            args = [a.arg for a in fn.args.args]
+            want = ["fmt", "data", "cur"] if name == "relative_unpack" else ["data", "cur"]
+            if args != want or fn.decorator_list or fn.args.defaults or fn.args.vararg or fn.args.kwarg or fn.args.kwonlyargs:
+                refuse(fn, "signature")
+            f = RFn(helpers, name == "relative_unpack")
+            parts = [x for x in (f.stmt(n) for n in fn.body) if x is not None]
+            out[key] = {"status": "translated", "term": lst(parts), "nvars": len(f.slots), "vars": list(f.slots), "type": "list rstmt"}
+        except Refuse as e:
+            out[key] = {"status": "refused", "reason": str(e)}
+    for name, codec in UTIL_DECODED.items():
+        key = "util_" + name
+        try:
+            fn = fns.get(name)
+            if fn is None:
+                refuse(tree, "function %s not found" % name)
+            body = [b for b in fn.body if not (isinstance(b, ast.Expr) and isinstance(b.value, ast.Constant))]
+            ok = ([a.arg for a in fn.args.args] == ["data", "cur"] and not fn.decorator_list and not fn.args.defaults and len(body) == 2
+                  and isinstance(body[0], ast.Assign) and len(body[0].targets) == 1 and isinstance(body[0].targets[0], ast.Tuple)
+                  and [getattr(x, "id", None) for x in body[0].targets[0].elts][1:] == ["cur"]
+                  and isinstance(body[0].value, ast.Call) and isinstance(body[0].value.func, ast.Name) and body[0].value.func.id == "read_short_bytes"
+                  and [getattr(a, "id", None) for a in body[0].value.args] == ["data", "cur"] and not body[0].value.keywords
+                  and isinstance(body[1], ast.Return) and isinstance(body[1].value, ast.Tuple) and len(body[1].value.elts) == 2
+                  and isinstance(body[1].value.elts[1], ast.Name) and body[1].value.elts[1].id == "cur")
+            if not ok:
+                refuse(fn, "shape of %s" % name)
+            b = body[0].targets[0].elts[0]
+            call = body[1].value.elts[0]
+            if not (isinstance(call, ast.Call) and isinstance(call.func, ast.Attribute) and call.func.attr == "decode" and isinstance(call.func.value, ast.Name)
+                    and isinstance(b, ast.Name) and call.func.value.id == b.id and len(call.args) == 1 and not call.keywords
+                    and isinstance(call.args[0], ast.Constant) and call.args[0].value in CODECS):
+                refuse(fn, "decode call")
+            out[key] = {"status": "translated", "term": "mk_rdecoded 0 %s" % CODECS[call.args[0].value], "nvars": 0, "vars": [], "type": "rdecoded"}
+        except Refuse as e:
+            out[key] = {"status": "refused", "reason": str(e)}
+    return out
+
+
 def translate_repo(repo):
-    return translate_source(open(os.path.join(repo, "afkak", "kafkacodec.py")).read())
+    out = translate_source(open(os.path.join(repo, "afkak", "kafkacodec.py")).read())
+    try:
+        out.update(translate_util(open(os.path.join(repo, "afkak", "_util.py")).read()))
+    except (SyntaxError, OSError) as e:
+        for name in UTIL_READERS + list(UTIL_DECODED):
+            out["util_" + name] = {"status": "refused", "reason": repr(e)[:100]}
+    return out
 
 
 def coq_definitions(result, prefix):
@@ -374,7 +528,7 @@ HEADER = """(* GENERATED by harness/py2dsl.py --snapshot from /repo/afkak/kafkac
    The decoder-language terms (Model.DecDSL.stmt) of afkak's response decoders as the source read when the snapshot
    was taken.  Proofs/DecDSLSound.v proves that interpreting them is the hand-written model Model.Responses; on every
    run harness/py2dsl.py translates the source again and Props/C05gen.v is re-checked against THAT translation. *)
-From AV Require Import Base.Util Model.Prim Model.DecDSL.
+From AV Require Import Base.Util Model.Prim Model.DecDSL Model.ReadDSL.
 Local Open Scope nat_scope.      (* variable slots are nat; the integer constants of the source carry %Z *)
 """
 
